@@ -16,6 +16,7 @@ import NemoVerif.Lemmas.GroupFlowVM
 import NemoVerif.Lemmas.GroupCoreVMCompose
 import NemoVerif.Lemmas.GroupCoreVMTemplate
 import NemoVerif.Lemmas.GroupCoreVMEvent
+import NemoVerif.Lemmas.GroupCoreVMPick
 namespace NemoVerif.C07
 open NemoVerif NemoVerif.Dnf NemoVerif.GroupExpand NemoVerif.GroupVM
 
@@ -352,6 +353,55 @@ theorem groupvm_is_corevm_partial_or_event (fuel : Nat) (s : CoreVM.VM) (f : Cor
       CoreVM.slide (fuel + 4) f uj.1 s1 = .ok [(f, r)] s2 ∧ CoreVM.FlowAt s2 f i2 x2 cfg ∧ x2.ctxOwner = x.ctxOwner ∧
       CoreVM.hview i2 = [(r, pe + 1, CoreIndex.HeadStatus.active)] :=
   CoreVM.or_group_event fuel s f i x cfg l mu pe fp e r us brs j uj F hown C S hlen hnm hndu hv hju hjm hone hl1 hfu hhx hleaf hmu hfp
+
+/-- **groupvm_is_corevm_partial (`MergeHeads` with `random.choice`, the winner).**  A MERGING head `h` on `MergeHeads u`; the children
+    `cs` of the forking head `r` are heads of the flow (none has forked itself), the MERGING ones among them are `MH` (in
+    `get_child_head_uids` order) and have equal scores.  Either `h` is the only candidate (`random.choice` is not called) or the
+    recorded outcome `c` of `random.choice` over `MH` selects `h`.  Then one step of CoreVM's `slide` lets the forking head continue
+    ACTIVE at `h`'s position, deletes EVERY child head — ACTIVE, MERGING or an INACTIVE loser of an earlier pick (the guard of each
+    deletion, "not in the reverse map", follows from the by-construction invariant `IndexOK`) — and hands `[r]` back.  This is the
+    winner branch of `GroupVM.mergeStep` (`pick`), for every number of children and candidates. -/
+theorem groupvm_is_corevm_partial_merge_choice (fuel : Nat) (s : CoreVM.VM) (f : CoreIndex.FUid) (h : CoreIndex.HUid) (i : CoreIndex.Inst)
+    (x : CoreVM.InstX) (cfg : CoreVM.FlowCfg) (hd rd : CoreIndex.Head) (u : String) (r : CoreIndex.HUid) (cs : List CoreIndex.HUid)
+    (H : CoreVM.HeadAt s f h i x cfg hd) (hel : cfg.elements[hd.pos]! = .merge u) (hm : hd.status = .merging)
+    (hfu : OMap.lookup u x.forkUids = some r) (hroot : i.findHead r = some rd)
+    (hcs : ((OMap.lookup (f, r) s.r.hx).getD {}).childHeadUids = cs)
+    (hleaf : ∀ c ∈ cs, ((OMap.lookup (f, c) s.r.hx).getD {}).childHeadUids = [])
+    (hex : ∀ c ∈ cs, ∃ cd, i.findHead c = some cd)
+    (MH : List CoreIndex.HUid) (hMH : cs.filter (fun c => (i.findHead c).map (·.status) == some CoreIndex.HeadStatus.merging) = MH)
+    (hpick : MH = [h] ∨ ∃ c rest sc0, s.r.choices = c :: rest ∧ c < MH.length ∧ MH[c]? = some h ∧ 1 < MH.length ∧
+      ∀ k ∈ MH, ((OMap.lookup (f, k) s.r.hx).getD {}).scores = sc0)
+    (hnd : cs.Nodup) (hmem : h ∈ cs)
+    (hrh : r ≠ h) (hrpos : rd.pos ≠ hd.pos) (hrst : rd.status = .inactive) (hrcs : r ∉ cs) (hucs : u ∉ cs)
+    (hns : i.status ≠ .stopping) :
+    ∃ s' i' x', CoreVM.slideStep (fuel + 2) f h s = .ok (false, [(f, r)]) s' ∧ CoreVM.FlowAt s' f i' x' cfg ∧
+      x'.ctxOwner = x.ctxOwner ∧
+      CoreVM.hview i' = ((CoreVM.hview i).map (CoreVM.setCore r hd.pos .active)).filter (fun t => !cs.contains t.1) ∧
+      s'.r.nextUid = s.r.nextUid :=
+  CoreVM.slideStep_merge_pick fuel s f h i x cfg hd rd u r cs H hel hm hfu hroot hcs hleaf hex MH hMH hpick hnd hmem hrh hrpos hrst
+    hrcs hucs hns
+
+/-- **… the loser.**  `random.choice` selects another candidate `h' ≠ h`: `h` becomes INACTIVE (ONE index operation), one recorded
+    choice is consumed, nothing else changes — the loser branch of `GroupVM.mergeStep`. -/
+theorem groupvm_is_corevm_partial_merge_lose (fuel : Nat) (s : CoreVM.VM) (f : CoreIndex.FUid) (h : CoreIndex.HUid) (i : CoreIndex.Inst)
+    (x : CoreVM.InstX) (cfg : CoreVM.FlowCfg) (hd rd : CoreIndex.Head) (u : String) (r : CoreIndex.HUid) (cs : List CoreIndex.HUid)
+    (H : CoreVM.HeadAt s f h i x cfg hd) (hel : cfg.elements[hd.pos]! = .merge u) (hm : hd.status = .merging)
+    (hfu : OMap.lookup u x.forkUids = some r) (hroot : i.findHead r = some rd)
+    (hcs : ((OMap.lookup (f, r) s.r.hx).getD {}).childHeadUids = cs)
+    (hleaf : ∀ c ∈ cs, ((OMap.lookup (f, c) s.r.hx).getD {}).childHeadUids = [])
+    (hex : ∀ c ∈ cs, ∃ cd, i.findHead c = some cd)
+    (MH : List CoreIndex.HUid) (hMH : cs.filter (fun c => (i.findHead c).map (·.status) == some CoreIndex.HeadStatus.merging) = MH)
+    (c : Nat) (rest : List Nat) (sc0 : List CoreVM.Score) (h' : CoreIndex.HUid)
+    (hch : s.r.choices = c :: rest) (hclt : c < MH.length) (hcget : MH[c]? = some h') (hne : h' ≠ h) (hlen1 : 1 < MH.length)
+    (hsc : ∀ k ∈ MH, ((OMap.lookup (f, k) s.r.hx).getD {}).scores = sc0)
+    (hnd : cs.Nodup) (hmem : h ∈ cs)
+    (hrh : r ≠ h) (hrpos : rd.pos ≠ hd.pos) (hrst : rd.status = .inactive) (hrcs : r ∉ cs) (hucs : u ∉ cs)
+    (hns : i.status ≠ .stopping) :
+    ∃ s' hg, CoreVM.slideStep (fuel + 2) f h s = .ok (false, []) s' ∧
+      s'.ixs = s.ixs.apply (.setStatus f h .inactive none) hg ∧ s'.r.choices = rest ∧ s'.r.hx = s.r.hx ∧ s'.r.fx = s.r.fx ∧
+      s'.r.prog = s.r.prog ∧ s'.r.nextUid = s.r.nextUid :=
+  CoreVM.slideStep_merge_lose fuel s f h i x cfg hd rd u r cs H hel hm hfu hroot hcs hleaf hex MH hMH c rest sc0 h' hch hclt hcget
+    hne hlen1 hsc hnd hmem hrh hrpos hrst hrcs hucs hns
 
 /-! ## the expanded element list -/
 
@@ -749,5 +799,43 @@ example :=
         have : (p1Brs 1 0 [Br.single 0, Br.single 1]).1[j' + 2]? = none := List.getElem?_eq_none (by omega)
         rw [this] at h1; cases h1)
     (by decide) rfl rfl (by intro c hc; simp at hc; rcases hc with rfl | rfl <;> rfl) (by decide) (by decide)
+
+/-- `match E0() or E0()` after event E0: both branch heads MERGING on the or-level `MergeHeads` (position 15), one recorded tie-break -/
+def exIxsTwo : CoreVM.IxS :=
+  ((((((({} : CoreVM.IxS).apply (.addInst "m" "h0" none) (by decide)).apply (.setPos "m" "h0" 2 none) (by decide)).apply
+    (.setStatus "m" "h0" .inactive none) (by decide)).apply (.fork "m" "h1" none 15 none) (by decide)).apply
+    (.fork "m" "h2" none 15 none) (by decide)).apply (.setStatus "m" "h1" .merging none) (by decide)).apply
+    (.setStatus "m" "h2" .merging none) (by decide)
+def exVMTwo (choices : List Nat) : CoreVM.VM :=
+  { ixs := exIxsTwo,
+    r := { prog := { flows := [exCfgOr] }, fx := [("m", exXFork)], hx := [(("m", "h0"), { childHeadUids := ["h1", "h2"] })],
+           choices := choices } }
+def exInstTwo : CoreIndex.Inst := { uid := "m", status := .waiting, heads := [
+  { uid := "h0", pos := 2, status := .inactive, elem := none }, { uid := "h1", pos := 15, status := .merging, elem := none },
+  { uid := "h2", pos := 15, status := .merging, elem := none }] }
+
+-- non-vacuity of `groupvm_is_corevm_partial_merge_choice`: `random.choice` returns index 0 = the head `h1` that is being advanced
+example :=
+  groupvm_is_corevm_partial_merge_choice 1 (exVMTwo [0]) "m" "h1" exInstTwo exXFork exCfgOr
+    { uid := "h1", pos := 15, status := .merging, elem := none } { uid := "h0", pos := 2, status := .inactive, elem := none }
+    "u" "h0" ["h1", "h2"]
+    { hi := rfl, hx := rfl, hc := rfl, hh := rfl, hlt := by decide, hst := by decide } rfl rfl rfl rfl rfl
+    (by intro c hc; simp at hc; rcases hc with rfl | rfl <;> rfl)
+    (by intro c hc; simp at hc; rcases hc with rfl | rfl <;> exact ⟨_, rfl⟩)
+    ["h1", "h2"] (by decide)
+    (Or.inr ⟨0, [], [], rfl, by decide, rfl, by decide, by intro k hk; simp at hk; rcases hk with rfl | rfl <;> rfl⟩)
+    (by decide) (by decide) (by decide) (by decide) rfl (by decide) (by decide) (by decide)
+
+-- non-vacuity of `groupvm_is_corevm_partial_merge_lose`: `random.choice` returns index 1 = the other head
+example :=
+  groupvm_is_corevm_partial_merge_lose 1 (exVMTwo [1]) "m" "h1" exInstTwo exXFork exCfgOr
+    { uid := "h1", pos := 15, status := .merging, elem := none } { uid := "h0", pos := 2, status := .inactive, elem := none }
+    "u" "h0" ["h1", "h2"]
+    { hi := rfl, hx := rfl, hc := rfl, hh := rfl, hlt := by decide, hst := by decide } rfl rfl rfl rfl rfl
+    (by intro c hc; simp at hc; rcases hc with rfl | rfl <;> rfl)
+    (by intro c hc; simp at hc; rcases hc with rfl | rfl <;> exact ⟨_, rfl⟩)
+    ["h1", "h2"] (by decide) 1 [] [] "h2" rfl (by decide) rfl (by decide) (by decide)
+    (by intro k hk; simp at hk; rcases hk with rfl | rfl <;> rfl)
+    (by decide) (by decide) (by decide) (by decide) rfl (by decide) (by decide) (by decide)
 
 end NemoVerif.C07
